@@ -58,6 +58,7 @@ struct MaskedWorld : World {
     {
         int tape = r.chance(1, 3) ? TAPE_RANDOM : (int)r.below(TAPE_NKINDS);
         pl.add("knob.tape", {tape, (int64_t)(r.next() >> 1)});
+        pl.add("knob.page", {(int64_t)(r.chance(1, 4) ? 1 : 0)});
         int nops = thorough ? 24 + (int)r.below(40) : 12 + (int)r.below(36);
         for (int i = 0; i < nops; ++i) {
             unsigned c = (unsigned)r.below(100);
@@ -89,10 +90,14 @@ struct MaskedWorld : World {
     struct Ctx {
         Run *run;
         ascon_trng_state_t trng;
-        ascon_masked_word_t w[NW];
+        // every masked word and state lives in its own exact-size allocation (poisoned bytes around it; against
+        // PROT_NONE pages in page mode), so that a function touching one share too many cannot land in a neighbour
+        GuardBuf wb[NW], sb[NST];
+        ascon_masked_word_t *wp[NW];
+        bool page;
         int wn[NW];          // share count of the representation held (0 = nothing yet)
         uint64_t wv[NW];     // model value
-        ascon_masked_state_t st[NST];
+        ascon_masked_state_t *sp[NST];
         int sn[NST];
         uint8_t sv[NST][40];
         uint64_t preserve[NST][4];
@@ -103,7 +108,7 @@ struct MaskedWorld : World {
     {
         uint8_t b[8];
         int n = c.wn[i];
-        XN(n, store, b, &c.w[i]);
+        XN(n, store, b, c.wp[i]);
         return be64(b);
     }
 
@@ -121,7 +126,7 @@ struct MaskedWorld : World {
     static void ensure_word(Ctx &c, int i, int n)
     {
         if (c.wn[i]) return;
-        XN(n, zero, &c.w[i], &c.trng);
+        XN(n, zero, c.wp[i], &c.trng);
         c.wn[i] = n;
         c.wv[i] = 0;
     }
@@ -141,15 +146,23 @@ struct MaskedWorld : World {
     {
         Ctx *cp = new Ctx();
         Ctx &c = *cp;
-        memset(&c, 0, sizeof c);
+        memset(c.wn, 0, sizeof c.wn);
+        memset(c.wv, 0, sizeof c.wv);
+        memset(c.sn, 0, sizeof c.sn);
+        memset(c.sv, 0, sizeof c.sv);
+        memset(c.preserve, 0, sizeof c.preserve);
+        memset(&c.trng, 0, sizeof c.trng);
         c.run = &run;
+        c.page = plan.knob("page", 0) != 0;
+        for (int i = 0; i < NW; ++i) { c.wb[i].alloc(sizeof(ascon_masked_word_t), 0, c.page, 0); c.wp[i] = (ascon_masked_word_t *)c.wb[i].p; }
+        for (int i = 0; i < NST; ++i) { c.sb[i].alloc(sizeof(ascon_masked_state_t), 0, c.page, 0); c.sp[i] = (ascon_masked_state_t *)c.sb[i].p; }
         c.tape = (int)(plan.knob("tape", 0) % TAPE_NKINDS);
         uint64_t tseed = 0;
         for (const Op &o : plan.ops) if (o.name == "knob.tape") tseed = o.u(1);
         tape_reset(c.tape, tseed);
         run.fault(std::string("rng.tape_") + tape_name[c.tape]);
         ascon_trng_init(&c.trng);
-        for (int s = 0; s < NST; ++s) ascon_masked_state_init(&c.st[s]);
+        for (int s = 0; s < NST; ++s) ascon_masked_state_init(c.sp[s]);
         int idx = 0;
         for (const Op &op : plan.ops) {
             run.cur_op = idx++;
@@ -158,8 +171,10 @@ struct MaskedWorld : World {
             run.task(op.name[0] == 'w' ? (int64_t)(op.u(0) % NW) : op.name[0] == 's' ? 10 + (int64_t)(op.u(0) % NST) : 20);
             tape_mark();
             step(c, op);
+            for (int i = 0; i < NW; ++i) if (!c.wb[i].intact()) { run.violation("C12", "canary", "masked_word_neighbourhood", fmt("bytes next to masked word %d were written by op %s", i, op.name.c_str())); c.wb[i].alloc(sizeof(ascon_masked_word_t), 0, c.page, 0); c.wp[i] = (ascon_masked_word_t *)c.wb[i].p; c.wn[i] = 0; }
+            for (int i = 0; i < NST; ++i) if (!c.sb[i].intact()) { run.violation("C12", "canary", "masked_state_neighbourhood", fmt("bytes next to masked state %d were written by op %s", i, op.name.c_str())); }
         }
-        for (int s = 0; s < NST; ++s) ascon_masked_state_free(&c.st[s]);
+        for (int s = 0; s < NST; ++s) ascon_masked_state_free(c.sp[s]);
         ascon_trng_free(&c.trng);
         delete cp;
     }
@@ -174,20 +189,20 @@ struct MaskedWorld : World {
                 int n = 2 + (int)(op.u(1) % (MAXS - 1));
                 uint8_t d[8];
                 fill_bytes(d, 8, nm == "w.zero" ? 0 : op.u(nm == "w.load_partial" ? 3 : 2));
-                GuardBuf g(8, (unsigned)i, false);
+                GuardBuf g(8, (unsigned)i, c.page);
                 memcpy(g.p, d, 8);
-                if (nm == "w.load") { g_tape.adv = be64(d); XN(n, load, &c.w[i], g.p, &c.trng); c.wv[i] = be64(d); }
+                if (nm == "w.load") { g_tape.adv = be64(d); XN(n, load, c.wp[i], g.p, &c.trng); c.wv[i] = be64(d); }
                 else if (nm == "w.load_partial") {
                     unsigned sz = 1 + (unsigned)((op.u(2) + 6) % 7);
-                    GuardBuf p(sz, 1, false);
+                    GuardBuf p(sz, 1, c.page);
                     memcpy(p.p, d, sz);
                     uint64_t v = 0;
                     for (unsigned k = 0; k < sz; ++k) v |= (uint64_t)d[k] << (56 - 8 * k);
                     g_tape.adv = v;
-                    XN(n, load_partial, &c.w[i], p.p, sz, &c.trng);
+                    XN(n, load_partial, c.wp[i], p.p, sz, &c.trng);
                     c.wv[i] = v;
-                } else if (nm == "w.load_32") { g_tape.adv = be64(d); XN(n, load_32, &c.w[i], g.p, g.p + 4, &c.trng); c.wv[i] = be64(d); }
-                else { g_tape.adv = 0; XN(n, zero, &c.w[i], &c.trng); c.wv[i] = 0; }
+                } else if (nm == "w.load_32") { g_tape.adv = be64(d); XN(n, load_32, c.wp[i], g.p, g.p + 4, &c.trng); c.wv[i] = be64(d); }
+                else { g_tape.adv = 0; XN(n, zero, c.wp[i], &c.trng); c.wv[i] = 0; }
                 c.wn[i] = n;
                 run.state(fmt("%s/%d", nm.c_str(), n));
                 check_word(c, i, nm.c_str() + 2);
@@ -197,9 +212,9 @@ struct MaskedWorld : World {
             if (nm == "w.store_partial") {
                 if (!c.wn[i]) return;
                 unsigned sz = 1 + (unsigned)((op.u(1) + 6) % 7);
-                GuardBuf g(sz, 2, false);
+                GuardBuf g(sz, 2, c.page);
                 int n = c.wn[i];
-                XN(n, store_partial, g.p, sz, &c.w[i]);
+                XN(n, store_partial, g.p, sz, c.wp[i]);
                 if (!g.intact()) run.violation("C12", "canary", fmt("x%d.store_partial", n), "wrote beyond the requested size");
                 uint8_t want[8];
                 put64(want, c.wv[i]);
@@ -213,12 +228,12 @@ struct MaskedWorld : World {
                 if (!c.wn[j]) return;
                 int n = c.wn[j];
                 uint8_t before[MAXS * 8], after[MAXS * 8];
-                memcpy(before, &c.w[j], sizeof before);
+                memcpy(before, c.wp[j], sizeof before);
                 g_tape.adv = c.wv[j];
-                XN(n, randomize, &c.w[i], &c.w[j], &c.trng);
+                XN(n, randomize, c.wp[i], c.wp[j], &c.trng);
                 c.wn[i] = n;
                 c.wv[i] = c.wv[j];
-                memcpy(after, &c.w[i], sizeof after);
+                memcpy(after, c.wp[i], sizeof after);
                 check_word(c, i, "randomize");
                 check_shares_changed(c, before, after, n, fmt("word_x%d_randomize", n));
                 run.state(fmt("randomize/%d/%d", n, (int)(i == j)));
@@ -228,7 +243,7 @@ struct MaskedWorld : World {
                 if (!c.wn[j]) return;
                 int n = c.wn[j];
                 if (c.wn[i] != n) { ensure_word(c, i, n); if (c.wn[i] != n) return; }
-                XN(n, xor, &c.w[i], &c.w[j]);
+                XN(n, xor, c.wp[i], c.wp[j]);
                 c.wv[i] ^= c.wv[j];
                 check_word(c, i, "xor");
                 run.state(fmt("xor/%d/%d", n, (int)(i == j)));
@@ -238,7 +253,7 @@ struct MaskedWorld : World {
                 if (!c.wn[j] || c.wn[i] != c.wn[j]) return;
                 int n = c.wn[j];
                 unsigned sz = (unsigned)(op.u(2) % 8);
-                XN(n, replace, &c.w[i], &c.w[j], sz);
+                XN(n, replace, c.wp[i], c.wp[j], sz);
                 uint64_t m1 = sz ? (~0ULL) >> (sz * 8) : ~0ULL;
                 c.wv[i] = (c.wv[i] & m1) | (c.wv[j] & ~m1);
                 check_word(c, i, "replace");
@@ -249,16 +264,16 @@ struct MaskedWorld : World {
                 if (!c.wn[j]) return;
                 int from = c.wn[j], to = 2 + (int)(op.u(2) % (MAXS - 1));
                 g_tape.adv = c.wv[j];
-                if (from == to) { XN(to, randomize, &c.w[i], &c.w[j], &c.trng); }
+                if (from == to) { XN(to, randomize, c.wp[i], c.wp[j], &c.trng); }
 #if MAXS >= 3
-                else if (to == 2 && from == 3) ascon_masked_word_x2_from_x3(&c.w[i], &c.w[j], &c.trng);
-                else if (to == 3 && from == 2) ascon_masked_word_x3_from_x2(&c.w[i], &c.w[j], &c.trng);
+                else if (to == 2 && from == 3) ascon_masked_word_x2_from_x3(c.wp[i], c.wp[j], &c.trng);
+                else if (to == 3 && from == 2) ascon_masked_word_x3_from_x2(c.wp[i], c.wp[j], &c.trng);
 #endif
 #if MAXS >= 4
-                else if (to == 2 && from == 4) ascon_masked_word_x2_from_x4(&c.w[i], &c.w[j], &c.trng);
-                else if (to == 3 && from == 4) ascon_masked_word_x3_from_x4(&c.w[i], &c.w[j], &c.trng);
-                else if (to == 4 && from == 2) ascon_masked_word_x4_from_x2(&c.w[i], &c.w[j], &c.trng);
-                else if (to == 4 && from == 3) ascon_masked_word_x4_from_x3(&c.w[i], &c.w[j], &c.trng);
+                else if (to == 2 && from == 4) ascon_masked_word_x2_from_x4(c.wp[i], c.wp[j], &c.trng);
+                else if (to == 3 && from == 4) ascon_masked_word_x3_from_x4(c.wp[i], c.wp[j], &c.trng);
+                else if (to == 4 && from == 2) ascon_masked_word_x4_from_x2(c.wp[i], c.wp[j], &c.trng);
+                else if (to == 4 && from == 3) ascon_masked_word_x4_from_x3(c.wp[i], c.wp[j], &c.trng);
 #endif
                 else return;
                 c.wv[i] = c.wv[j];
@@ -270,14 +285,14 @@ struct MaskedWorld : World {
             if (nm == "w.pad") {
                 if (!c.wn[i]) return;
                 unsigned off = (unsigned)(op.u(1) % 8);
-                ascon_masked_word_pad(&c.w[i], off);
+                ascon_masked_word_pad(c.wp[i], off);
                 c.wv[i] ^= 0x8000000000000000ULL >> (off * 8);
                 check_word(c, i, "pad");
                 return;
             }
             if (nm == "w.separator") {
                 if (!c.wn[i]) return;
-                ascon_masked_word_separator(&c.w[i]);
+                ascon_masked_word_separator(c.wp[i]);
                 c.wv[i] ^= 1;
                 check_word(c, i, "separator");
                 return;
@@ -294,12 +309,12 @@ struct MaskedWorld : World {
                 ascon_init(&x1);
                 ascon_overwrite_bytes(&x1, b, 0, 40);
                 g_tape.adv = be64(b);
-                if (n == 2) ascon_x2_copy_from_x1(&c.st[s], &x1, &c.trng);
+                if (n == 2) ascon_x2_copy_from_x1(c.sp[s], &x1, &c.trng);
 #if MAXS >= 3
-                else if (n == 3) ascon_x3_copy_from_x1(&c.st[s], &x1, &c.trng);
+                else if (n == 3) ascon_x3_copy_from_x1(c.sp[s], &x1, &c.trng);
 #endif
 #if MAXS >= 4
-                else if (n == 4) ascon_x4_copy_from_x1(&c.st[s], &x1, &c.trng);
+                else if (n == 4) ascon_x4_copy_from_x1(c.sp[s], &x1, &c.trng);
 #endif
                 ascon_free(&x1);
                 c.sn[s] = n;
@@ -314,12 +329,12 @@ struct MaskedWorld : World {
                 unsigned fr = (unsigned)(op.u(1) % 12);
                 if (op.u(2) & 1) for (int k = 0; k < 4; ++k) c.preserve[s][k] = ascon_trng_generate_64(&c.trng); // fresh instead of preserved
                 g_tape.adv = be64(c.sv[s]);
-                if (n == 2) ascon_x2_permute(&c.st[s], (uint8_t)fr, c.preserve[s]);
+                if (n == 2) ascon_x2_permute(c.sp[s], (uint8_t)fr, c.preserve[s]);
 #if MAXS >= 3
-                else if (n == 3) ascon_x3_permute(&c.st[s], (uint8_t)fr, c.preserve[s]);
+                else if (n == 3) ascon_x3_permute(c.sp[s], (uint8_t)fr, c.preserve[s]);
 #endif
 #if MAXS >= 4
-                else if (n == 4) ascon_x4_permute(&c.st[s], (uint8_t)fr, c.preserve[s]);
+                else if (n == 4) ascon_x4_permute(c.sp[s], (uint8_t)fr, c.preserve[s]);
 #endif
                 // unmasked counterpart: the library's own ascon_permute
                 ascon_state_t x1;
@@ -334,15 +349,15 @@ struct MaskedWorld : World {
             }
             if (nm == "s.randomize") {
                 uint8_t before[5][MAXS * 8], after[5][MAXS * 8];
-                for (int k = 0; k < 5; ++k) memcpy(before[k], &c.st[s].M[k], MAXS * 8);
-                if (n == 2) ascon_x2_randomize(&c.st[s], &c.trng);
+                for (int k = 0; k < 5; ++k) memcpy(before[k], &c.sp[s]->M[k], MAXS * 8);
+                if (n == 2) ascon_x2_randomize(c.sp[s], &c.trng);
 #if MAXS >= 3
-                else if (n == 3) ascon_x3_randomize(&c.st[s], &c.trng);
+                else if (n == 3) ascon_x3_randomize(c.sp[s], &c.trng);
 #endif
 #if MAXS >= 4
-                else if (n == 4) ascon_x4_randomize(&c.st[s], &c.trng);
+                else if (n == 4) ascon_x4_randomize(c.sp[s], &c.trng);
 #endif
-                for (int k = 0; k < 5; ++k) memcpy(after[k], &c.st[s].M[k], MAXS * 8);
+                for (int k = 0; k < 5; ++k) memcpy(after[k], &c.sp[s]->M[k], MAXS * 8);
                 check_state(c, s, fmt("x%d_randomize", n).c_str());
                 for (int k = 0; k < 5; ++k) check_shares_changed(c, before[k], after[k], n, fmt("state_x%d_randomize", n));
                 return;
@@ -350,7 +365,7 @@ struct MaskedWorld : World {
             if (nm == "s.convert") {
                 int d = (int)(op.u(1) % NST);
                 int to = 2 + (int)(op.u(2) % (MAXS - 1));
-                ascon_masked_state_t *dst = &c.st[d], *src = &c.st[s];
+                ascon_masked_state_t *dst = c.sp[d], *src = c.sp[s];
                 bool done = true;
                 if (to == 2 && n == 2) ascon_x2_copy_from_x2(dst, src, &c.trng);
 #if MAXS >= 3
@@ -428,12 +443,19 @@ struct MaskedWorld : World {
                 run.probe("aead.key_rerandomized_in_use");
             };
             if (rr == 1 || rr == 3 || rr == 4) rerandomize(rr == 4);
-            GuardBuf ct(mlen + 16, (unsigned)mlen, false), ref(mlen + 16, 1, false);
+            GuardBuf ct(mlen + 16, (unsigned)mlen, c.page), ref(mlen + 16, 1, false);
             size_t cl = 0, rl = 0;
             const uint8_t *mp = mlen ? m.data() : nullptr, *ap = adlen ? ad.data() : nullptr;
-            if (alg == 0) { ascon128_masked_aead_encrypt(ct.p, &cl, mp, mlen, ap, adlen, nonce.data(), &mk.k128); ascon128_aead_encrypt(ref.p, &rl, mp, mlen, ap, adlen, nonce.data(), key.data()); }
-            else if (alg == 1) { ascon128a_masked_aead_encrypt(ct.p, &cl, mp, mlen, ap, adlen, nonce.data(), &mk.k128); ascon128a_aead_encrypt(ref.p, &rl, mp, mlen, ap, adlen, nonce.data(), key.data()); }
-            else { ascon80pq_masked_aead_encrypt(ct.p, &cl, mp, mlen, ap, adlen, nonce.data(), &mk.k160); ascon80pq_aead_encrypt(ref.p, &rl, mp, mlen, ap, adlen, nonce.data(), key.data()); }
+            GuardBuf gm, ga, gn;
+            const uint8_t *np = nonce.data();
+            if (c.page) { // inputs end at a PROT_NONE page: an over-read by the (assembly) word loads faults
+                gm.alloc(mlen, 0, true); gm.set(m); if (mlen) mp = gm.p;
+                ga.alloc(adlen, 0, true); ga.set(ad); if (adlen) ap = ga.p;
+                gn.alloc(16, 0, true); gn.set(nonce); np = gn.p;
+            }
+            if (alg == 0) { ascon128_masked_aead_encrypt(ct.p, &cl, mp, mlen, ap, adlen, np, &mk.k128); ascon128_aead_encrypt(ref.p, &rl, mp, mlen, ap, adlen, nonce.data(), key.data()); }
+            else if (alg == 1) { ascon128a_masked_aead_encrypt(ct.p, &cl, mp, mlen, ap, adlen, np, &mk.k128); ascon128a_aead_encrypt(ref.p, &rl, mp, mlen, ap, adlen, nonce.data(), key.data()); }
+            else { ascon80pq_masked_aead_encrypt(ct.p, &cl, mp, mlen, ap, adlen, np, &mk.k160); ascon80pq_aead_encrypt(ref.p, &rl, mp, mlen, ap, adlen, nonce.data(), key.data()); }
             static const char *an[3] = {"ascon128_masked_aead", "ascon128a_masked_aead", "ascon80pq_masked_aead"};
             if (!ct.intact()) run.violation("C12", "canary", std::string(an[alg]) + "_encrypt", "ciphertext canary damaged");
             if (cl != rl || memcmp(ct.p, ref.p, mlen + 16) != 0)
@@ -444,13 +466,16 @@ struct MaskedWorld : World {
             Bytes x(ref.p, ref.p + mlen + 16);
             if (tamper == 1) x[(size_t)(sd % x.size())] ^= 0x20;
             if (tamper == 2) x[x.size() - 1] ^= 1;
-            GuardBuf pm(mlen, 2, false), pr(mlen, 3, false);
+            GuardBuf pm(mlen, 2, c.page), pr(mlen, 3, false);
+            GuardBuf gx;
+            const uint8_t *xp = x.data();
+            if (c.page) { gx.alloc(x.size(), 0, true); gx.set(x); xp = gx.p; }
             size_t ml = 0, rl2 = 0;
             int r1, r2;
             if (rr == 2 || rr == 3 || rr == 5) rerandomize(rr == 5);
-            if (alg == 0) { r1 = ascon128_masked_aead_decrypt(pm.p, &ml, x.data(), x.size(), ap, adlen, nonce.data(), &mk.k128); r2 = ascon128_aead_decrypt(pr.p, &rl2, x.data(), x.size(), ap, adlen, nonce.data(), key.data()); }
-            else if (alg == 1) { r1 = ascon128a_masked_aead_decrypt(pm.p, &ml, x.data(), x.size(), ap, adlen, nonce.data(), &mk.k128); r2 = ascon128a_aead_decrypt(pr.p, &rl2, x.data(), x.size(), ap, adlen, nonce.data(), key.data()); }
-            else { r1 = ascon80pq_masked_aead_decrypt(pm.p, &ml, x.data(), x.size(), ap, adlen, nonce.data(), &mk.k160); r2 = ascon80pq_aead_decrypt(pr.p, &rl2, x.data(), x.size(), ap, adlen, nonce.data(), key.data()); }
+            if (alg == 0) { r1 = ascon128_masked_aead_decrypt(pm.p, &ml, xp, x.size(), ap, adlen, np, &mk.k128); r2 = ascon128_aead_decrypt(pr.p, &rl2, x.data(), x.size(), ap, adlen, nonce.data(), key.data()); }
+            else if (alg == 1) { r1 = ascon128a_masked_aead_decrypt(pm.p, &ml, xp, x.size(), ap, adlen, np, &mk.k128); r2 = ascon128a_aead_decrypt(pr.p, &rl2, x.data(), x.size(), ap, adlen, nonce.data(), key.data()); }
+            else { r1 = ascon80pq_masked_aead_decrypt(pm.p, &ml, xp, x.size(), ap, adlen, np, &mk.k160); r2 = ascon80pq_aead_decrypt(pr.p, &rl2, x.data(), x.size(), ap, adlen, nonce.data(), key.data()); }
             if (!pm.intact()) run.violation("C12", "canary", std::string(an[alg]) + "_decrypt", "plaintext canary damaged");
             if ((r1 < 0) != (r2 < 0) || ml != rl2 || (mlen && memcmp(pm.p, pr.p, mlen) != 0))
                 run.violation("C10", "masked_aead_equals_unmasked", std::string(an[alg]) + "_decrypt",
@@ -468,12 +493,12 @@ struct MaskedWorld : World {
         if (!n) return;
         ascon_state_t x1;
         uint8_t b[40];
-        if (n == 2) ascon_x2_copy_to_x1(&x1, &c.st[s]);
+        if (n == 2) ascon_x2_copy_to_x1(&x1, c.sp[s]);
 #if MAXS >= 3
-        else if (n == 3) ascon_x3_copy_to_x1(&x1, &c.st[s]);
+        else if (n == 3) ascon_x3_copy_to_x1(&x1, c.sp[s]);
 #endif
 #if MAXS >= 4
-        else if (n == 4) ascon_x4_copy_to_x1(&x1, &c.st[s]);
+        else if (n == 4) ascon_x4_copy_to_x1(&x1, c.sp[s]);
 #endif
         ascon_extract_bytes(&x1, b, 0, 40);
         ascon_free(&x1);
